@@ -89,7 +89,7 @@ def esc_findings(repo: Repo, esc_engine: Esc, c: Closure, res: CheckResult) -> N
 
 # ------------------------------------------------------------------------------------------ collect rule
 def collect_rule(repo: Repo, esc_engine: Esc, fn: ast.FunctionDef, module, qual: str, res: CheckResult,
-                 prop: str = "C04") -> int:
+                 prop: str = "C04", rekey=None) -> int:
     """In a function that raises a LoadError-family group built from a list `errors`:
     every handler appending to that list must catch only LoadError subclasses, or assign True to a flag
     such that the group raise is guarded by `if flag: raise <non LoadError group>`.
@@ -105,13 +105,21 @@ def collect_rule(repo: Repo, esc_engine: Esc, fn: ast.FunctionDef, module, qual:
                 group_raises.append((node, names[0]))
     if not group_raises:
         return 0
-    # names of lists handed to the group constructors
+    # names of lists handed to the group constructors: locals initialised as empty list displays
+    local_lists: Set[str] = set()
+    for node in walk_no_nested(fn):
+        if isinstance(node, ast.Assign) and isinstance(node.value, ast.List) and not node.value.elts:
+            for t in node.targets:
+                if isinstance(t, ast.Name):
+                    local_lists.add(t.id)
     list_names: Set[str] = set()
-    for node, _ in group_raises:
+    raises_by_list: Dict[str, list] = {}
+    for node, gname in group_raises:
         for a in node.exc.args[1:] + [k.value for k in node.exc.keywords]:
             for n in ast.walk(a):
-                if isinstance(n, ast.Name):
+                if isinstance(n, ast.Name) and n.id in local_lists:
                     list_names.add(n.id)
+                    raises_by_list.setdefault(n.id, []).append((node, gname))
     n_handlers = 0
     for tr in walk_no_nested(fn):
         if not isinstance(tr, ast.Try):
@@ -124,6 +132,7 @@ def collect_rule(repo: Repo, esc_engine: Esc, fn: ast.FunctionDef, module, qual:
                     # does the appended value mention the caught exception?
                     if h.name and any(isinstance(x, ast.Name) and x.id == h.name for a in n.args for x in ast.walk(a)):
                         appended = n
+                        appended_list = n.func.value.id
             if appended is None:
                 continue
             n_handlers += 1
@@ -137,16 +146,19 @@ def collect_rule(repo: Repo, esc_engine: Esc, fn: ast.FunctionDef, module, qual:
                      and st.value.value is True for t in st.targets if isinstance(t, ast.Name)]
             ok = False
             for flag in flags:
-                if _group_raises_guarded(fn, group_raises, flag, esc_engine, fctx):
+                if _group_raises_guarded(fn, raises_by_list.get(appended_list, group_raises), flag, esc_engine, fctx):
                     ok = True
             if not ok:
+                construct = f"except {norm(h.type) if h.type else ''}: {norm(appended)}"
+                f_file, f_qual, f_line = module.rel, qual, h.lineno
+                if rekey is not None:
+                    f_file, f_qual, f_line, construct = rekey(h, appended, construct)
                 res.add(Finding(
-                    prop, "ESC.collect-unexpected", module.rel, qual,
-                    f"except {norm(h.type) if h.type else ''}: {norm(appended)}",
+                    prop, "ESC.collect-unexpected", f_file, f_qual, construct,
                     "handler collects an exception that is not known to be a LoadError into the list later wrapped in "
                     "a LoadError group, without setting the unexpected-error flag that selects the plain ExceptionGroup: "
                     "a non-LoadError raised below surfaces as (part of) a LoadError",
-                    h.lineno,
+                    f_line,
                 ))
     return n_handlers
 
